@@ -36,7 +36,8 @@ CHILD = os.path.join(env.VERIF, "vmon", "c17_child.py")
 
 def required(tier):
     return ["history:after_failure", "history:repeat_same_text", "history:after_other_resolution", "threads:switches_inside_chartparse>=100",
-            "threads:2", "threads:16", "baseline:valid", "baseline:failing", "selection_cases", "read_by_path_cases", "history:late_failure_then_sibling_with_other_tempi",
+            "threads:2", "threads:16", "baseline:valid", "baseline:failing", "selection_cases", "read_by_path_cases", "history:late_failure_then_sibling_with_other_tempi", "history:more_than_100000_skipped_lines_in_one_process",
+            "history:more_than_2000_text_events_in_one_process",
             "cold_start:first_parses_of_the_process_were_concurrent"]
 
 
@@ -47,7 +48,32 @@ def shards(tier, seed):
     # cold start: the very first parses of the process happen concurrently (lazy initialisation, first-use growth of tables)
     out += [{"name": f"cold-{i}", "kind": "cold", "texts": 6, "history": 0, "thread_rounds": 1 if tier == "quick" else 3}
             for i in range(4 if tier == "quick" else 16)]
+    # volume: what a long-lived process has seen in total (hundreds of thousands of tolerated-but-ignored lines, thousands of event
+    # lines of one kind) must not change how the next chart is read
+    out += [{"name": f"volume-{i}", "kind": "volume", "texts": 6, "history": 60 if tier == "quick" else 400, "thread_rounds": 0,
+             "drum_parses": 23 if tier == "quick" else 60} for i in range(1 if tier == "quick" else 4)]
     return out
+
+
+def volume_texts(rng):
+    """a pro-drums chart (thousands of cymbal / accent markers N 66..68, N 34..36 that the library reports and skips) and a venue
+    chart (hundreds of lighting / camera text events, no lyrics, no sections)"""
+    res = 192
+    body, t = [], 0
+    for k in range(1500):
+        lane = rng.randrange(5)
+        body.append(f"  {t} = N {lane} 0")
+        for m in rng.sample([66, 67, 68, 34, 35, 36, 32], 3):
+            body.append(f"  {t} = N {m} 0")
+        t += rng.choice([48, 96, 192])
+    drums = gen.render_sections([("Song", [f"  Resolution = {res}", "  Name = \"Pro Drums\""]), ("SyncTrack", ["  0 = TS 4", "  0 = B 140000"]),
+                                 ("Events", ["  0 = E \"section Intro\"", "  768 = E \"lyric Hey\""]), ("ExpertDrums", body)])
+    cues = ["lighting (chase)", "lighting (strobe)", "lighting ()", "crowd_clap", "crowd_noclap", "do_directed_cut", "next", "prev", "bonusfx",
+            "HandMap_Default", "music_start", "verse", "chorus", "half_tempo"]
+    ev = [f"  {96 * k} = E \"{rng.choice(cues)}\"" for k in range(700)]
+    venue = gen.render_sections([("Song", [f"  Resolution = {res}"]), ("SyncTrack", ["  0 = TS 4", "  0 = B 120000", "  9600 = B 98500"]), ("Events", ev),
+                                 ("ExpertSingle", ["  0 = N 0 0", "  192 = N 1 96"])])
+    return [{"text": drums, "want": None, "res": res, "kind": "valid", "volume": "drums"}, {"text": venue, "want": None, "res": res, "kind": "valid", "volume": "venue"}]
 
 
 _TMP = None
@@ -424,6 +450,8 @@ def run_shard(shard, rec, tier, seed):
     harness.setup(with_contracts=False)
     rng = harness.rng_for(seed, ID, shard["name"], 0)
     texts = corpus(rng, shard["texts"])
+    if shard.get("kind") == "volume":
+        texts += volume_texts(rng)
     base = baselines(texts)
     for t, b in zip(texts, base):
         rec.cls("baseline:valid" if b["ok"] else "baseline:failing")
@@ -433,7 +461,25 @@ def run_shard(shard, rec, tier, seed):
             rec.cls("read_by_path_cases")
     rec.mon("fresh_interpreters", len(texts))
     cold = shard.get("kind") == "cold"
-    if not cold:
+    if shard.get("kind") == "volume":
+        vi = {t["volume"]: k for k, t in enumerate(texts) if t.get("volume")}
+        seq = [vi["venue"]] * 3 + [vi["drums"]] * shard["drum_parses"]
+        ignored = 0
+        for n_, k in enumerate(seq):
+            got = outcome_of(texts[k]["text"], None, None)
+            rec.ev()
+            ignored += len(got["logs"])
+            d = diff(base[k], got)
+            if d:
+                rec.violation("history-dependence", f"parse #{n_} of a high-volume history ({texts[k]['volume']} chart, {ignored} reported-and-skipped lines so "
+                              f"far in this process): {d}", {"kind": "history", "texts": [{"text": x["text"], "want": x["want"], "path_bytes_hex": x.get("path_bytes_hex")} for x in texts],
+                                                               "sequence": seq[:n_ + 1]}, "parse-depends-on-history")
+                break
+        rec.mon("reported_and_skipped_lines_in_one_process", ignored)
+        if ignored > 100000:
+            rec.cls("history:more_than_100000_skipped_lines_in_one_process")
+        rec.cls("history:more_than_2000_text_events_in_one_process")
+    if not cold and not rec.full:
         history(rec, rng, texts, base, shard["history"])
     if not rec.full:
         for r in range(shard["thread_rounds"]):
